@@ -116,6 +116,82 @@ func C01(c *core.Ctx) {
 			}
 		}
 		c01Small(c)
+		c01Constructed(c, i)
+	}
+	// an event stream of more than a megabyte (one in a run: whatever reads it in pieces must put them together again)
+	{
+		m := gen.GenMsg(c.Rng, "packed", false, false)
+		m.Stream = make([]byte, 1<<20+4097+c.Rng.Intn(3000))
+		c.Rng.Read(m.Stream)
+		enc, _ := marshal(m.ToGo(c.Rng).(codecMsg))
+		c01DecodeCases(c, m, enc, "megabyte stream")
+	}
+}
+
+// c01Constructed: PackedForward and CompressedPackedForward messages as the constructors build them from an
+// entry list -- in half of the cases right after a constructor call that FAILED on an unencodable record --
+// encoded, decoded on both paths, unpacked: the entries are the caller's.
+func c01Constructed(c *core.Ctx, i int) {
+	r := c.Rng
+	es := gen.GenEntries(r, false)
+	if len(es) > 20 {
+		es = es[:20]
+	}
+	for j := range es {
+		es[j].Rec = gen.GenMap(r, 1, false)
+	}
+	want := make([]gen.Entry, len(es))
+	for j, e := range es {
+		want[j] = gen.Entry{Sec: e.Sec, Nsec: e.Nsec, Rec: e.Rec.Norm()}
+	}
+	for _, compressed := range []bool{false, true} {
+		if i%2 == 1 { // a call that fails part-way through its list
+			bad := gen.EntriesToGo(r, es)
+			bad = append(bad, protocol.EntryExt{Timestamp: protocol.EventTimeNow(), Record: map[string]interface{}{"k": make(chan int)}}, protocol.EntryExt{Timestamp: protocol.EventTimeNow(), Record: map[string]interface{}{}})
+			if _, err := protocol.NewPackedForwardMessage("bad", bad); err == nil {
+				c.Violation("judge-go", "c01-constructed", "NewPackedForwardMessage succeeded on an unencodable record", nil)
+			}
+		}
+		var msg *protocol.PackedForwardMessage
+		var err error
+		if compressed {
+			msg, err = protocol.NewCompressedPackedForwardMessage("tag", gen.EntriesToGo(r, es))
+		} else {
+			msg, err = protocol.NewPackedForwardMessage("tag", gen.EntriesToGo(r, es))
+		}
+		c.Eval()
+		c.Hist(fmt.Sprintf("constructed packed compressed=%v after-failed-call=%v", compressed, i%2 == 1))
+		replay := map[string]interface{}{"compressed": compressed, "after_failed_call": i%2 == 1, "entries": len(es)}
+		if err != nil {
+			c.Violation("judge-go", "c01-constructed", "constructor failed on encodable entries", replay)
+			continue
+		}
+		enc, obs := marshal(msg)
+		if obs == "err" || obs == "panic" {
+			c.Violation("judge-go", "c01-constructed", "a constructed message does not encode", replay)
+			continue
+		}
+		for _, path := range paths {
+			var d protocol.PackedForwardMessage
+			if class, left := decodeObs(path, &d, enc); class != "ok" || left != 0 {
+				c.Violation("judge-go", "c01-constructed", "a constructed message does not decode ("+path+")", replay)
+				continue
+			}
+			stream := d.EventStream
+			if compressed {
+				raw, gerr := gunzipOne(stream)
+				if gerr != nil {
+					c.Violation("judge-go", "c01-constructed", "the compressed event stream is not one gzip stream: "+gerr.Error(), replay)
+					continue
+				}
+				stream = raw
+			}
+			var back protocol.EntryList
+			rest, uerr := back.UnmarshalPacked(stream)
+			if uerr != nil || len(rest) != 0 || gen.RenderEntries(gen.EntriesFromGo(back), true) != gen.RenderEntries(want, true) {
+				c.Violation("judge-go", "c01-constructed", fmt.Sprintf("%d entries went into the constructor, the decoded message (%s) unpacks to %d entries / other content", len(es), path, len(back)), replay)
+			}
+		}
 	}
 }
 
